@@ -59,29 +59,38 @@ structure MemOut where
   view   : Option Bytes := none   -- the `data` slice handed to the caller (packet data events that complete)
   deriving DecidableEq, Repr, Inhabited
 
+/-- cap(r.packetBuf) -/
+def Mem.pcap (m : Mem) : Nat := match m.pbuf with | some b => b.length | none => 0
+
+/-- ZeroCopyReadPacketData before readData: pre-allocate the interface's snap length if the packet buffer is
+    too small, the snap length is large enough and not above ngMaxPrealloc: (r.packetBuf, allocation requests) -/
+def preallocZ (m : Mem) (n snap : Nat) : Option Bytes × List Nat :=
+  if m.pcap < n ∧ snap ≥ n ∧ snap ≤ ngMaxPrealloc then (some (zerosM snap), [snap]) else (m.pbuf, [])
+
+/-- ZeroCopyReadPacketData after readData returned `buf`: `if cap(data) > cap(r.packetBuf) { r.packetBuf = data[:cap(data)] }`;
+    if readData reused r.packetBuf, `data` aliases it -/
+def keepBuf (pb : Option Bytes) (n : Nat) (buf : Bytes) : Option Bytes :=
+  let cap1 := match pb with | some b => b.length | none => 0
+  if buf.length > cap1 then some buf else
+    match pb with
+    | some b => if b.length ≥ n then some buf else pb
+    | none => pb
+
 /-- effect of one event; `zero` = ZeroCopyReadPacketData* was called -/
 def memStep (zero : Bool) (m : Mem) : MemEv → MemOut
   | .opt len =>
     if len < m.vcap then { mem := m } else { mem := { m with vcap := len }, allocs := [len] }
   | .name len => { mem := m, allocs := [len] }
-  | .dsb n got =>
-    let (_, _, al) := readDataMem none n got
-    { mem := m, allocs := al }
+  | .dsb n got => { mem := m, allocs := (readDataMem none n got).2.2 }
   | .data n got snap =>
     if zero then
-      let cap0 := match m.pbuf with | some b => b.length | none => 0
-      let (pb, al0) : Option Bytes × List Nat :=
-        if cap0 < n ∧ snap ≥ n ∧ snap ≤ ngMaxPrealloc then (some (zerosM snap), [snap]) else (m.pbuf, [])
-      let (buf, full, al) := readDataMem pb n got
-      let cap1 := match pb with | some b => b.length | none => 0
-      let pb' := if buf.length > cap1 then some buf else
-                 match pb with
-                 | some b => if b.length ≥ n then some buf else pb   -- data aliases r.packetBuf
-                 | none => pb
-      { mem := { m with pbuf := pb' }, allocs := al0 ++ al, view := if full then some (buf.take n) else none }
+      let pa := preallocZ m n snap
+      let rd := readDataMem pa.1 n got
+      { mem := { m with pbuf := keepBuf pa.1 n rd.1 }, allocs := pa.2 ++ rd.2.2,
+        view := if rd.2.1 then some (rd.1.take n) else none }
     else
-      let (buf, full, al) := readDataMem none n got
-      { mem := m, allocs := al, view := if full then some (buf.take n) else none }
+      let rd := readDataMem none n got
+      { mem := m, allocs := rd.2.2, view := if rd.2.1 then some (rd.1.take n) else none }
 
 /-- run a list of events (one reader call) -/
 def memRun (zero : Bool) : Mem → List MemEv → Mem × List Nat
